@@ -39,6 +39,8 @@ AllDecls ==
     \cup { <<"ebm", a, i, g, n>> : a \in EApps, i \in 2..3, g \in GApps, n \in 1..GLen }
     \cup { <<"aam", a, 0, g, n>> : a \in EApps, g \in GApps, n \in 1..GLen }
     \cup { <<"abm", a, 0, g, n>> : a \in EApps, g \in GApps, n \in 1..GLen }
+    \* eae: evolution i of app a declares AFTER_EVOLUTIONS = [(b, 'e<j>')] on the other evolution app
+    \cup { d \in { <<"eae", a, i, b, j>> : a \in EApps, i \in 2..3, b \in EApps, j \in 2..3 } : d[2] # d[4] }
     \cup { <<"md", 4, n, 3, k>> : n \in 1..GLen, k \in 1..GLen }
     \cup { <<"md", 3, n, 4, k>> : n \in 2..GLen, k \in 1..GLen }
 
@@ -47,7 +49,9 @@ Init == /\ epending \in [EApps -> 0..2]
         /\ decls \in {{}} \cup { {d} : d \in AllDecls }
                        \cup (IF MaxDecl >= 2 THEN { {d, e} : d \in AllDecls, e \in AllDecls } ELSE {})
         \* a declaration sits in an evolution that is pending
-        /\ \A d \in decls : d[1] \in {"eam", "ebm"} => <<"evo", d[2], d[3]>> \in PendingEvos(d[2])
+        /\ \A d \in decls : d[1] \in {"eam", "ebm", "eae"} => <<"evo", d[2], d[3]>> \in PendingEvos(d[2])
+        \* an evolution can only name an evolution that exists (applied or pending)
+        /\ \A d \in decls : d[1] = "eae" => d[5] <= EApplied + epending[d[4]]
         /\ \A d \in decls : d[1] \in {"aam", "abm"} => epending[d[2]] > 0
         \* history is consistent: an applied migration has its dependencies applied
         /\ \A d \in decls : d[1] = "md" => (d[3] <= gapplied[d[2]] => d[5] <= gapplied[d[4]])
@@ -67,7 +71,9 @@ MdReq(d) == LET x == <<"mig", d[2], d[3]>>
 DeclReq(d) ==
     LET mig == <<"mig", d[4], d[5]>>
         evo == <<"evo", d[2], d[3]>>
-    IN IF d[1] = "md" THEN MdReq(d)
+    IN IF d[1] = "eae"
+       THEN (IF <<"evo", d[4], d[5]>> \in Units THEN { <<evo, <<"evo", d[4], d[5]>>>> } ELSE {})
+       ELSE IF d[1] = "md" THEN MdReq(d)
        ELSE IF mig \notin Units THEN {}
        ELSE IF d[1] = "eam" THEN { <<evo, mig>> }
        ELSE IF d[1] = "ebm" THEN { <<mig, evo>> }
